@@ -164,17 +164,34 @@ Proof.
     + econstructor; [eapply nth_parent_In; exact Ek | constructor].
 Qed.
 
+Lemma norm_idem r b : norm_base r (norm_base r b) = norm_base r b.
+Proof.
+  destruct b as [c|b|g|]; try reflexivity. cbn [norm_base].
+  destruct (assoc g (r_branches r)) eqn:E; cbn [norm_base]; [reflexivity | rewrite E; reflexivity].
+Qed.
+
+Lemma resolve_base_norm r b : resolve_base r (norm_base r b) = resolve_base r b.
+Proof. unfold resolve_base. rewrite norm_idem. reflexivity. Qed.
+
+Lemma as_of_norm r b l t : as_of r (norm_base r b, l) t = as_of r (b, l) t.
+Proof. unfold as_of, resolve_rev. cbn [fst snd]. rewrite resolve_base_norm. reflexivity. Qed.
+
 Theorem resolve_hash r c k : commit_at (r_hist r) c = Some k -> resolve_rev r (BHash c, []) = Some c.
-Proof. intros H. unfold resolve_rev; cbn [fst snd resolve_base walk]. rewrite H. reflexivity. Qed.
+Proof. intros H. unfold resolve_rev, resolve_base; cbn [fst snd norm_base walk]. rewrite H. reflexivity. Qed.
 
 Theorem resolve_branch r b hd w : assoc b (r_branches r) = Some (hd, w) -> resolve_rev r (BBranch b, []) = Some hd.
-Proof. intros H. unfold resolve_rev, branch_head; cbn [fst snd resolve_base walk]. unfold branch_head. rewrite H. reflexivity. Qed.
+Proof. intros H. unfold resolve_rev, resolve_base; cbn [fst snd norm_base walk]. unfold branch_head. rewrite H. reflexivity. Qed.
 
-Theorem resolve_tag r g c : assoc g (r_tags r) = Some c -> resolve_rev r (BTag g, []) = Some c.
-Proof. intros H. unfold resolve_rev; cbn [fst snd resolve_base walk]. rewrite H. reflexivity. Qed.
+(* a tag name that is not also a branch name *)
+Theorem resolve_tag r g c : assoc g (r_branches r) = None -> assoc g (r_tags r) = Some c -> resolve_rev r (BTag g, []) = Some c.
+Proof. intros Hb H. unfold resolve_rev, resolve_base; cbn [fst snd norm_base walk]. rewrite Hb, H. reflexivity. Qed.
+
+(* a name that is both a branch and a tag means the branch *)
+Theorem resolve_shadowed_tag r g hd w l : assoc g (r_branches r) = Some (hd, w) -> resolve_rev r (BTag g, l) = resolve_rev r (BBranch g, l).
+Proof. intros H. unfold resolve_rev, resolve_base; cbn [fst snd norm_base]. rewrite H. reflexivity. Qed.
 
 Theorem resolve_head r : resolve_rev r (BHead, []) = branch_head r (r_cur r).
-Proof. unfold resolve_rev; cbn [fst snd resolve_base walk]. destruct (branch_head r (r_cur r)); reflexivity. Qed.
+Proof. unfold resolve_rev, resolve_base; cbn [fst snd norm_base walk]. destruct (branch_head r (r_cur r)); reflexivity. Qed.
 
 (* ---------------------------------------------------------------- *)
 (* AS OF                                                             *)
@@ -199,8 +216,9 @@ Corollary as_of_branch r b hd w k t :
 Proof. intros H Hk. eapply as_of_spec; [eapply resolve_branch; exact H | exact Hk]. Qed.
 
 Corollary as_of_tag r g c k t :
+  assoc g (r_branches r) = None ->
   assoc g (r_tags r) = Some c -> commit_at (r_hist r) c = Some k -> is_table_of (k_state k) t (as_of r (BTag g, []) t).
-Proof. intros H Hk. eapply as_of_spec; [eapply resolve_tag; exact H | exact Hk]. Qed.
+Proof. intros Hb H Hk. eapply as_of_spec; [eapply resolve_tag; eassumption | exact Hk]. Qed.
 
 Corollary as_of_tilde r b n i j k t :
   resolve_base r b = Some i -> first_parent_chain (r_hist r) n i j -> commit_at (r_hist r) j = Some k ->
@@ -215,10 +233,19 @@ Qed.
 (* revision databases                                                *)
 Theorem revision_db_eq_as_of r v t : names_commit r v -> revdb r v t = as_of r v t.
 Proof.
-  destruct v as [b l]. destruct b as [c|b|g|]; destruct l as [|a l]; cbn [names_commit revdb]; try tauto; try reflexivity.
+  destruct v as [b l]. unfold names_commit, revdb. cbn [fst snd].
+  destruct (norm_base r b) as [c|b0|g|] eqn:En; destruct l as [|a l]; try tauto; try reflexivity.
   intros [hd [c [Hb Hc]]]. unfold branch_working. rewrite Hb.
-  unfold as_of, resolve_rev; cbn [fst snd resolve_base walk]. unfold branch_head. rewrite Hb.
+  rewrite <- as_of_norm, En.
+  unfold as_of, resolve_rev, resolve_base; cbn [fst snd norm_base walk]. unfold branch_head. rewrite Hb.
   unfold read_commit. rewrite Hc. reflexivity.
+Qed.
+
+(* `db/<name>` with <name> both a branch and a tag is the branch *)
+Theorem revdb_shadowed_tag r g hd w l t : assoc g (r_branches r) = Some (hd, w) -> revdb r (BTag g, l) t = revdb r (BBranch g, l) t.
+Proof.
+  intros H. unfold revdb. cbn [fst snd norm_base]. rewrite H.
+  destruct l; [reflexivity|]. rewrite <- (as_of_norm r (BTag g)). cbn [norm_base]. rewrite H. reflexivity.
 Qed.
 
 Corollary revision_db_spec r v t i c :
@@ -433,29 +460,29 @@ Qed.
 
 Lemma revdb_denotes_names r v : revdb_denotes r v = true -> names_commit r v.
 Proof.
-  destruct v as [b l]. destruct b as [c|b|g|]; destruct l as [|a l]; cbn [revdb_denotes names_commit]; try discriminate; try tauto.
+  destruct v as [b l]. unfold revdb_denotes, names_commit. cbn [fst snd].
+  destruct (norm_base r b) as [c|b0|g|]; destruct l as [|a l]; try discriminate; try tauto.
   unfold branch_cleanb, branch_clean.
-  destruct (assoc b (r_branches r)) as [[hd w]|]; [|discriminate].
+  destruct (assoc b0 (r_branches r)) as [[hd w]|]; [|discriminate].
   destruct (commit_at (r_hist r) hd) as [c|] eqn:Ec; [|discriminate].
   intros H. apply state_eqb_eq in H. subst w. exists hd, c. split; [reflexivity | exact Ec].
 Qed.
 
 Lemma prop_answer_model r q : prop_answer r q (answer r q) = true.
 Proof.
-  assert (Hrev : forall v t, (if revdb_denotes r v then want_commit r v t (revdb r v t)
-       else match v with
-            | (BBranch _, []) => true
-            | _ => match revdb r v t with ARows _ _ | AHist _ _ => want_commit r v t (revdb r v t) | _ => true end
-            end) = true).
-  { intros v t. destruct (revdb_denotes r v) eqn:Ed.
+  assert (Hrev : forall v t, prop_answer r (QRevDb v t) (revdb r v t) = true).
+  { intros v t. cbn [prop_answer]. destruct (revdb_denotes r v) eqn:Ed.
     - rewrite revision_db_eq_as_of by (apply revdb_denotes_names; exact Ed). apply want_commit_as_of.
-    - destruct v as [b l]. destruct b as [c|b|g|]; destruct l as [|a l]; cbn [revdb_denotes] in Ed; try discriminate; reflexivity. }
-  destruct q as [v t|v t|v t|c t|t]; cbn [prop_answer answer].
-  - apply want_commit_as_of.
+    - destruct v as [b l]. unfold revdb_denotes in Ed. unfold revdb. cbn [fst snd] in *.
+      destruct (norm_base r b) as [c|b0|g|]; destruct l as [|a l]; try discriminate; try reflexivity.
+      destruct (branch_working r b0) as [w|]; [|reflexivity].
+      unfold read_state. destruct (assoc t (d_schema w)); [apply ans_eqb_refl | reflexivity]. }
+  destruct q as [v t|v t|v t|c t|t]; cbn [answer].
+  - cbn [prop_answer]. apply want_commit_as_of.
   - apply Hrev.
-  - apply Hrev.
-  - unfold hist_at. destruct (cur_schema r t); [apply ans_eqb_refl | reflexivity].
-  - unfold hist_all. destruct (cur_schema r t); [|reflexivity].
+  - apply (Hrev v t).
+  - cbn [prop_answer]. unfold hist_at. destruct (cur_schema r t); [apply ans_eqb_refl | reflexivity].
+  - cbn [prop_answer]. unfold hist_all. destruct (cur_schema r t); [|reflexivity].
     destruct (branch_head r (r_cur r)); [apply ans_eqb_refl | reflexivity].
 Qed.
 
